@@ -5,7 +5,18 @@ use std::str::FromStr;
 use surf_n_term::keys::KeyMapResult;
 use surf_n_term::{Key, KeyChord, KeyMap, KeyMapHandler, KeyMod, KeyName};
 
+/// which concrete keys stand for the abstract keys 1..4 (chosen per history): the second palette makes keys 1 / 4 and
+/// 3 / 2 differ ONLY in a lock modifier, as the kitty keyboard protocol reports them
+static PALETTE: std::sync::atomic::AtomicUsize = std::sync::atomic::AtomicUsize::new(0);
 fn key(k: u64) -> Key {
+    if PALETTE.load(std::sync::atomic::Ordering::Relaxed) == 1 {
+        return match k {
+            1 => Key::new(KeyName::Char('a'), KeyMod::CAPSLOCK),
+            2 => Key::new(KeyName::F(5), KeyMod::EMPTY),
+            3 => Key::new(KeyName::F(5), KeyMod::NUMLOCK),
+            _ => Key::new(KeyName::Char('a'), KeyMod::EMPTY),
+        };
+    }
     match k {
         1 => Key::new(KeyName::Char('a'), KeyMod::EMPTY),
         2 => Key::new(KeyName::Char('x'), KeyMod::CTRL),
@@ -56,6 +67,7 @@ pub fn replay(args: &[String]) {
     let mut out = Out::new();
     for (id, v) in stdin_records().enumerate() {
         let id = id + base;
+        PALETTE.store(id % 2, std::sync::atomic::Ordering::Relaxed);
         let regs: Vec<Vec<Key>> = v["regs"].as_array().unwrap().iter().map(chord).collect();
         let split = regs.len() / 2;
         let res = guarded(|| {
